@@ -498,11 +498,22 @@ def check_cases(ctx, rep, cases, variant, binp, timeouts):
             cmds = c["cmds"]
         jobs.append((c, cmds))
 
-    def one(job):
-        c, cmds = job
+    def timing_only(i, o):
+        """the first disagreement with the model is only in guard_drop_running / guard_drop_result of one snapshot: the
+        harness looked while drop(guard) was between two waits.  The scripts force the schedule, so a real defect of the
+        guard drop shows on every try; only an observation made too early goes away on a re-run."""
+        if models is None or o is None:
+            return False
+        for a, b in zip(models[i]["snaps"], o["snaps"]):
+            if list(a) != list(b[:9]):
+                return list(a)[:7] == list(b[:7])
+        return False
+
+    def one(ij):
+        i, (c, cmds) = ij
         o, err = run_impl(binp, c, cmds, twait)
         tries = 1
-        while perturbed(o, cmds) and tries < 3:
+        while (perturbed(o, cmds) or timing_only(i, o)) and tries < 4:
             o2, err2 = run_impl(binp, c, cmds, twait)
             tries += 1
             if o2 is not None:
@@ -511,7 +522,7 @@ def check_cases(ctx, rep, cases, variant, binp, timeouts):
 
     t = time.time()
     with ThreadPoolExecutor(max_workers=max(2, min(12, vlib.NCPU - 2))) as ex:
-        outs = list(ex.map(one, jobs))
+        outs = list(ex.map(one, list(enumerate(jobs))))
     ctx.log("implementation: %d cases (%.1fs)" % (len(cases), time.time() - t))
 
     disagree = []
